@@ -390,6 +390,8 @@ def distance_wei_floyd(adjacency, transform=None):
             elif transform == 'inv':
                 #SPL = invert(adjacency)
                 SPL = 1 / adjacency
+                # no connection, also when the zero is a negative zero (1 / -0.0 = -inf)
+                SPL[adjacency == 0] = np.inf
             else:
                 raise ValueError("Unexpected transform type. Only 'log' and " +
                                  "'inv' are accepted")
